@@ -7,17 +7,31 @@ import SqfModel.Render
 namespace Sqf.VM
 open Sqf
 
-/-- values rendered through the heap (arrays by content), same text as `render_value` of the harness -/
-def renderValH (h : List (List Val)) : Nat → Val → List B
-  | 0, _ => bytes "<deep>"
+/-- lexicographic order on byte strings (`std::string::compare`) -/
+def bytesLe : List B → List B → Bool
+  | [], _ => true
+  | _ :: _, [] => false
+  | a :: as, b :: bs => if a < b then true else if a > b then false else bytesLe as bs
+
+def insertSorted (x : List B) : List (List B) → List (List B)
+  | [] => [x]
+  | y :: ys => if bytesLe x y then x :: y :: ys else y :: insertSorted x ys
+
+def sortBytes (xs : List (List B)) : List (List B) := xs.foldl (fun acc x => insertSorted x acc) []
+
+/-- values rendered through the heap (arrays by content, hash maps as sorted entry lists), same text as
+    `render_value` of the harness -/
+def renderValM (m : M) : Nat → Val → List B
+  | 0, _ => n!"<deep>"
   | f + 1, v =>
     match v with
-    | .ref id => [91] ++ joinWith [44] ((h.getD id []).map (renderValH h f)) ++ [93]
-    | .strace _ => bytes "<VM-STACKTRACE>"
-    | .mapref _ => bytes "<HASHMAP>"
+    | .ref id => [91] ++ joinWith [44] ((m.arr id).map (renderValM m f)) ++ [93]
+    | .mapref id =>
+      n!"#{" ++ joinWith [44] (sortBytes ((m.map id).map (fun e => renderValM m f e.1 ++ [61] ++ renderValM m f e.2))) ++ [125]
+    | .strace _ => n!"<VM-STACKTRACE>"
     | v => renderVal v
 
-def renderV (m : M) (v : Val) : List B := renderValH m.heap 66 v
+def renderV (m : M) (v : Val) : List B := renderValM m 65 v
 
 /-- a fresh VM with one context holding one frame over the program -/
 def load (prog : List Instr) (parse : List B → Option (List Instr) := fun _ => none) : M :=
@@ -62,5 +76,21 @@ def observe (prog : List Instr) (globals : List Name) (maxSteps : Nat) (trace : 
       [32] ++ g ++ bytes "=" ++ (match varsGet (nsGet m.nss 0) g with | some v => renderV m v | none => bytes "undef"))
     bytes "res=" ++ res ++ bytes " st=" ++ st ++ bytes " err=" ++ errCodes m ++ bytes " val=" ++ val ++ gs ++
       (if trace then bytes " T: " ++ joinWith (bytes " ; ") steps else [])
+
+/-- observation of the `eq` verb: run `g1 = A; g2 = B`, then compare the two values both ways with
+    `value::operator==` (isEqualTo) and with the case-insensitive comparison behind `==` -/
+def observeEq (prog : List Instr) (parse : List B → Option (List Instr) := fun _ => none) : List B :=
+  let (m, r, _, _) := runTrace 5000 (load prog parse) []
+  match r with
+  | .empty =>
+    let a := (varsGet (nsGet m.nss 0) n!"g1").getD .nil
+    let b := (varsGet (nsGet m.nss 0) n!"g2").getD .nil
+    let bs := fun (x : Bool) => if x then n!"true" else n!"false"
+    let ci := fun (x y : Val) => match x, y with
+      | .nil, _ => false
+      | _, .nil => false
+      | _, _ => valEq m.heap true (m.heap.length + 10000) x y
+    n!"ab=" ++ bs (valueEq m.heap a b) ++ n!" ba=" ++ bs (valueEq m.heap b a) ++ n!" ci=" ++ bs (ci a b)
+  | _ => n!"eval-error"
 
 end Sqf.VM
